@@ -198,6 +198,13 @@ theorem C13_skip_loop_exact (bytes : Nat) (ds : List Nat) (s' : SkipSt)
 /-- the scratch-buffer size of the model is the literal of `skip_bytes` as re-extracted from the source on this run -/
 theorem C13_skip_buffer_is_the_sources : Holds Gen.skipBuf (fun n => n = SKIP_BUF) := tie_skip_buf
 
+/-- the size test of the model's decoder is the one the codec's source has at every site where it compares the announced body
+    length with the item size limit (`>`: a body of exactly the limit is within it), as re-extracted on this run -/
+theorem C13_size_test_is_the_sources :
+    Holds Gen.sizeTests (fun ops => ops.all (fun op =>
+      [1024, 1048576].all (fun l => [l - 1, l, l + 1].all (fun b => opRefuses op b l == modelRefuses b l))) = true) :=
+  tie_size_tests
+
 /-- non-vacuity: 150 000 bytes owed, delivered as 65536 + 1 + 65535 + 18928 -/
 example : (SkipSt.run 150000 (SkipSt.init 150000) [65536, 1, 65535, 18928]).map (·.done) = some true := by decide
 
@@ -211,3 +218,4 @@ end Memc
 #print axioms Memc.skip_run_inv
 #print axioms Memc.C13_skip_loop_exact
 #print axioms Memc.C13_skip_buffer_is_the_sources
+#print axioms Memc.C13_size_test_is_the_sources
